@@ -36,6 +36,7 @@ def histOutputs (ops : List Op) : List String :=
 def histOps (op : String) (a : List String) : Option String :=
   match op with
   | "hist.fobs" => some "ok"
+  | "hist.twice" => some "ok"      -- oracle on the implementation: a constructed module prints the same text twice, and the text is accepted
   | "hist.run" => some ("|".intercalate (histOutputs (a.filterMap parseHistOp)))
   | "hist.obs" =>
     let ops := a.filterMap parseHistOp
